@@ -242,7 +242,7 @@ def _constructive(rng, A, heavy, multi, L, low=()):
 
     rings2 = [r for r in ("[Ring2]", "[=Ring2]") if r in Aset]
     branches2 = [b for b in ("[Branch2]", "[=Branch2]", "[#Branch2]") if b in Aset]
-    maxdepth = rng.choice((1, 2, 3, 3, 6, 12))
+    maxdepth = rng.choice((1, 2, 3, 3, 6, 12, 25, 40))
 
     def ring_to(cur, target):
         q = cur - target - 1
